@@ -138,7 +138,7 @@ def rand_width(rng, w):
     return rng.randrange(0, top + 1)
 
 
-def random_model(rng, cls, enc, nsec=None, nseg=None, max_data=96, typed=None):
+def random_model(rng, cls, enc, nsec=None, nseg=None, max_data=96, typed=None, pht_last=False):
     """A random well-formed image: tables and data inside the file, pairwise disjoint, arbitrary
     order and gaps; segments may overlap each other and cover sections or not."""
     m = Model(cls, enc)
@@ -194,6 +194,8 @@ def random_model(rng, cls, enc, nsec=None, nseg=None, max_data=96, typed=None):
     pieces = [("sht", -1, shentsize * nsec), ("pht", -1, phentsize * nseg)] + \
              [("sec", i, len(s["data"])) for i, s in enumerate(secs) if s["data"] is not None]
     rng.shuffle(pieces)
+    if pht_last:      # program header table behind everything else (as patchelf-style tools produce)
+        pieces = [p for p in pieces if p[0] != "pht"] + [p for p in pieces if p[0] == "pht"]
     pos = ehsize
     place = {}
     for kind, i, ln in pieces:
@@ -232,6 +234,13 @@ def random_model(rng, cls, enc, nsec=None, nseg=None, max_data=96, typed=None):
         segs.append({"p_type": ty, "p_flags": rand_width(rng, 4), "p_offset": off, "p_vaddr": va,
                      "p_paddr": rand_width(rng, aw), "p_filesz": filesz, "p_memsz": memsz,
                      "p_align": rng.choice([0, 1, 8, 0x1000, 0x200000, rand_width(rng, aw)])})
+    if pht_last and segs:
+        # the last segment is a PT_LOAD with file contents inside the file, before the table
+        withdata = [s for s in secs if s["data"]]
+        if withdata:
+            s0 = rng.choice(withdata)
+            segs[-1].update({"p_type": PT_LOAD, "p_offset": s0["sh_offset"], "p_filesz": s0["sh_size"],
+                             "p_memsz": s0["sh_size"] + 88, "p_align": 4096, "p_flags": 6})
     m.sections = secs; m.segments = segs; m.size = total
     m.ehdr = {"e_type": rand_width(rng, 2), "e_machine": rand_width(rng, 2), "e_version": rand_width(rng, 4),
               "e_entry": rand_width(rng, aw), "e_phoff": place[("pht", -1)] if nseg else rng.choice([0, 0, 52]),
@@ -317,3 +326,85 @@ def wellformed(img):
         if g["p_vaddr"] + g["p_memsz"] >= top or g["p_offset"] + g["p_filesz"] >= top:
             return False
     return True
+
+
+def linked_model(rng, cls, enc, nload=None):
+    """A linker-like well-formed image whose segment contents are covered by sections: sections laid
+    out consecutively (aligned), allocated ones at address = segment vaddr + distance from the segment's
+    file start, PT_LOAD segments covering runs of them (offset ≡ vaddr mod align), optional nested
+    PT_NOTE, NOBITS last in its segment, non-allocated sections and the tables after them."""
+    m = Model(cls, enc)
+    aw = 4 if cls == 32 else 8
+    m.ident[0:4] = b"\x7fELF"; m.ident[4] = 1 if cls == 32 else 2; m.ident[5] = 1 if enc == "lsb" else 2
+    m.ident[6] = 1; m.ident[7] = rng.choice([0, 3, 9]); m.ident[8] = 0
+    nload = rng.choice([0, 1, 2, 2, 3]) if nload is None else nload
+    names = [b""]; secs = [dict(sh_name=0, sh_type=0, sh_flags=0, sh_addr=0, sh_offset=0, sh_size=0, sh_link=0,
+                                sh_info=0, sh_addralign=0, sh_entsize=0, name=b"", data=None)]
+    segs = []
+    page = rng.choice([0x1000, 0x1000, 0x10000, 0x100])
+    nseg_total = nload + (1 if nload and rng.random() < 0.5 else 0)
+    pos = EHSIZE[cls] + PHSIZE[cls] * nseg_total
+    note_seg = None
+    for j in range(nload):
+        base = 0x400000 + j * 0x1000000
+        k = rng.randint(1, 4)
+        # segment start: offset ≡ vaddr (mod page)
+        pos += (-pos) % rng.choice([1, 4, 16])
+        seg_off = pos; vaddr = base + (seg_off % page)
+        flags = rng.choice([5, 6, 4, 7])
+        first = len(secs); mem_end = vaddr
+        for t in range(k):
+            nob = (t == k - 1) and rng.random() < 0.3
+            al = rng.choice([1, 4, 8, 16])
+            if nob:
+                size = rng.choice([8, 64, 300])
+                addr = vaddr + (pos - seg_off); addr += (-addr) % al
+                secs.append(dict(sh_name=0, sh_type=8, sh_flags=3, sh_addr=addr, sh_offset=pos, sh_size=size, sh_link=0,
+                                 sh_info=0, sh_addralign=al, sh_entsize=0, name=b".bss%d" % j, data=None))
+                mem_end = addr + size
+            else:
+                pos += (-pos) % al
+                ty = rng.choice([1, 1, 1, 7, 14, 6, 0x6ffffff6]) if t else rng.choice([1, 7])
+                n = rng.choice([1, 4, 12, 16, 33, rng.randint(1, 120)])
+                data = bytes(rng.randrange(256) for _ in range(n))
+                secs.append(dict(sh_name=0, sh_type=ty, sh_flags=2 | (flags & 1) * 4 | ((flags >> 1) & 1), sh_addr=vaddr + (pos - seg_off),
+                                 sh_offset=pos, sh_size=n, sh_link=0, sh_info=0, sh_addralign=al, sh_entsize=rng.choice([0, 0, 8]),
+                                 name=rng.choice([b".text", b".rodata", b".data", b".note.x", b".init_array", b".dyn"]) + b"%d" % len(secs), data=data))
+                pos += n; mem_end = max(mem_end, vaddr + (pos - seg_off))
+        file_end = max([s["sh_offset"] + s["sh_size"] for s in secs[first:] if s["data"] is not None] + [seg_off])
+        segs.append(dict(p_type=1, p_flags=flags, p_offset=seg_off, p_vaddr=vaddr, p_paddr=vaddr,
+                         p_filesz=file_end - seg_off, p_memsz=mem_end - vaddr, p_align=page))
+        if note_seg is None and nseg_total > nload:
+            s = secs[first]
+            if s["data"] is not None and len(secs) - first > 1:
+                note_seg = dict(p_type=4, p_flags=4, p_offset=s["sh_offset"], p_vaddr=s["sh_addr"], p_paddr=s["sh_addr"],
+                                p_filesz=s["sh_size"], p_memsz=s["sh_size"], p_align=rng.choice([1, 4]))
+    if nseg_total > nload:
+        if note_seg is None:
+            nseg_total = nload
+        else:
+            segs.append(note_seg)
+    # non-allocated sections
+    for t in range(rng.randint(0, 3)):
+        al = rng.choice([1, 1, 4, 8]); pos += (-pos) % al
+        n = rng.choice([0, 5, 16, 40]); data = bytes(rng.randrange(256) for _ in range(n))
+        secs.append(dict(sh_name=0, sh_type=rng.choice([1, 2, 3, 4, 9]), sh_flags=0, sh_addr=0, sh_offset=pos, sh_size=n,
+                         sh_link=0, sh_info=0, sh_addralign=al, sh_entsize=rng.choice([0, 16, 24]),
+                         name=rng.choice([b".comment", b".symtab", b".strtab", b".rela.x", b".debug"]) + b"%d" % t, data=data))
+        pos += n
+    # section name table
+    strtab = b"\0"
+    for s in secs[1:]:
+        s["sh_name"] = len(strtab); strtab += s["name"] + b"\0"
+    shname = len(strtab); strtab += b".shstrtab\0"
+    secs.append(dict(sh_name=shname, sh_type=3, sh_flags=0, sh_addr=0, sh_offset=pos, sh_size=len(strtab), sh_link=0,
+                     sh_info=0, sh_addralign=1, sh_entsize=0, name=b".shstrtab", data=strtab))
+    pos += len(strtab)
+    pos += 16 - pos % 16
+    m.sections = secs; m.segments = segs
+    m.ehdr = {"e_type": 2 if nload else 1, "e_machine": rng.choice([3, 62, 40, 20]), "e_version": 1,
+              "e_entry": segs[0]["p_vaddr"] if segs else 0, "e_phoff": EHSIZE[cls] if segs else 0, "e_shoff": pos,
+              "e_flags": rng.choice([0, 0x5000200]), "e_ehsize": EHSIZE[cls], "e_phentsize": PHSIZE[cls],
+              "e_phnum": len(segs), "e_shentsize": SHSIZE[cls], "e_shnum": len(secs), "e_shstrndx": len(secs) - 1}
+    m.size = pos + SHSIZE[cls] * len(secs)
+    return m
